@@ -1,92 +1,109 @@
 (* C13 - world switching delivers in/out events to the worlds that run.
-   Statement file: theorems only, each closed by [exact]. *)
+   Statement file: theorems only, each closed by [exact].
+   Second generation of the Loop family: the listener callbacks
+   (on_world_load, on_switch_in, on_switch_out, on_quit) can themselves raise
+   Quit, call quit_loop / switch, raise SwitchWorld or another exception, at
+   any nesting depth (Loop/RBus.v, RModel.v, R13Model.v, R13Proofs.v). *)
 From Coq Require Import ZArith List Bool.
-From Desper Require Import Lib.Alist Loop.Model Loop.ModelFacts Loop.C13Model Loop.C13Proofs.
+From Desper Require Import Lib.Alist Loop.RBus Loop.RModel Loop.RFacts Loop.R13Model
+     Loop.R13Proofs.
 Import ListNotations.
 Open Scope Z_scope.
 
 (* For every case (any number of handles, any sequence of loop.switch /
    start() operations, any frame scripts issued from a processor, an event
    callback or a coroutine at any processor position, any events poked at
-   other worlds) that contains no switch() call with clear_next, nor with
-   clear_current towards the loop's current handle (known finding K5), and
-   whose observed logs the model of desper/loop.py accepts, the checker of
-   Loop/C13Model.v accepts the logs:
-   - a switch request (switch() or a bare SwitchWorld) abandons the frame: no
-     further processor is called, and the world processed by the next
-     iteration is the instance the target handle holds;
+   other worlds, any one-shot reactions of the load-time / switch-time / quit
+   callbacks, nested to any depth) that contains
+     - no switch() call with clear_next, nor with clear_current towards the
+       loop's current handle (known finding K5), and
+     - no switch request made by a callback while the loop is carrying out a
+       switch (known finding K10),
+   and whose observed logs the model of desper/loop.py accepts, the checker of
+   Loop/R13Model.v accepts the logs:
+   - a switch request (switch() or a bare SwitchWorld, from a script or from
+     an on_switch_out / on_quit callback) abandons the frame: no further
+     processor is called, and the world processed by the next iteration is
+     the instance the target handle holds;
    - through switch(), on_switch_out(from, to) is delivered exactly once, in
-     [from], before anything else; on_switch_in(from, to) exactly once, in the
-     instance the loop runs next, after everything that instance had pending
-     (its own on_world_load if it was just loaded, events sent to it while it
-     was left); no other delivery happens;
+     [from], at once; on_switch_in(from, to) is held by the target and is
+     delivered in the instance the loop enters, after everything that
+     instance had pending; nothing else is delivered;
    - the world left delivers nothing until the loop enters it again, and then
-     everything it was sent, in order;
+     everything it was sent, in order; a callback that raises during that
+     release stops it, what was not delivered stays held for the next time
+     the world is entered (nothing is lost, nothing is delivered twice);
    - a handle cleared by clear_current / clear_next yields an instance with a
-     new serial (load() runs again), a handle not cleared is not reloaded. *)
+     new serial, a handle not cleared is not reloaded. *)
 Theorem C13_switch_events :
   forall c : C13_case, wf_b c = true -> known13_b c = false ->
                        accepts c = true -> holds13 c.
 Proof. intros c W K A. exact (accepts_holds13 c W K A). Qed.
 Print Assumptions C13_switch_events.
 
-(* what the checker accepts for a switch() request, on raw entries: the
-   entries it announces contain on_switch_out(from, to) delivered in [from] and
-   END with on_switch_in(from, to) delivered in the instance that is current
-   afterwards, whose handle is the target *)
-Theorem C13_accepted_switch_ends_with_switch_in :
-  forall h cc cn b b' l, spec_switch h cc cn b = Some (b', l) ->
-  exists to pre,
-    l = pre ++ [EEv (b_curw b') (VIn (b_curw b) to)] /\
-    In (EEv (b_curw b) (VOut (b_curw b) to)) pre /\ b_curh b' = h.
-Proof. intros h cc cn b b' l H. exact (spec_switch_shape h cc cn b b' l H). Qed.
-Print Assumptions C13_accepted_switch_ends_with_switch_in.
-
-(* every load and every delivery in an accepted log was announced *)
+(* every load, delivery and callback action in an accepted log was announced *)
 Theorem C13_nothing_unannounced :
   forall b, b_exp b = [] ->
-    (forall h w, step13 b (ELoad h w) = None) /\ (forall w e, step13 b (EEv w e) = None).
-Proof. intros b H. unfold step13. rewrite H. split; reflexivity. Qed.
+    (forall h w, step13 b (ELoad h w) = None) /\ (forall w e, step13 b (EEv w e) = None) /\
+    (forall k i a w h, step13 b (EAct (OCallback k i) a w h) = None).
+Proof.
+  intros b H. unfold step13. rewrite H. repeat split; try reflexivity.
+  intros k i a w h. cbn [is_callback negb]. now rewrite andb_false_r.
+Qed.
 
 Definition fr t pk a := {| f_t := t; f_pokes := pk; f_pos := 0%nat; f_org := OProc; f_act := a |}.
 Definition top0 : op * list entry :=
-  (OTop 0 false false, [ELoad 0 1; EEv 1 (VLoad 0 1); ETopDone 1 0]).
+  (OTop 0 false false [], [ELoad 0 1; EEv 1 (VLoad 0 1); ETopDone 1 0]).
 
-(* non-vacuity: switch to an unloaded handle with clear_current, an event
-   poked at the world held by the target, switch back to the cleared handle
-   (fresh instance 3), self-switch *)
+(* non-vacuity: an on_world_load callback of the entered world raises Quit
+   while the loop is entering it: on_switch_in(1,2) stays held by world 2 and
+   is delivered when world 2 is entered again, before the new on_switch_in *)
 Definition ex_ok : C13_case :=
   {| c_nps := [1%nat; 1%nat];
      c_ops :=
        [ top0;
-         (OStart [fr 0 [] (ASwitch 1 true false true);
-                  fr 8 [(0, 1); (1, 2)] ANormal;
-                  fr 9 [] (ASwitch 0 false false true);
-                  fr 10 [(1, 3)] (ASwitch 0 false false false);
-                  fr 11 [] (ASwitch 1 false false true)] EndQuit,
-          [EClock 0 1 0; EProc 1 0%nat 0; EAct OProc (ASwitch 1 true false true);
-           ELoad 1 2; EEv 1 (VOut 1 2); EEv 2 (VLoad 1 2); EEv 2 (VIn 1 2);
-           EClock 8 2 1; EProc 2 0%nat 8; EPoke 1 2 2; EEv 2 (VPoke 2);
-           EClock 9 2 1; EProc 2 0%nat 1; EAct OProc (ASwitch 0 false false true);
-           ELoad 0 3; EEv 2 (VOut 2 3); EEv 3 (VLoad 0 3); EEv 3 (VIn 2 3);
-           EClock 10 3 0; EProc 3 0%nat 1; EPoke 1 3 2;
-           EAct OProc (ASwitch 0 false false false); EEv 3 (VOut 3 3); EEv 3 (VIn 3 3);
-           EClock 11 3 0; EProc 3 0%nat 1; EAct OProc (ASwitch 1 false false true);
-           EEv 3 (VOut 3 2); EEv 2 (VPoke 3); EEv 2 (VIn 3 2);
-           EClockEnd EndQuit 2 1; EEnd (Returned false) 2 1]) ] |}.
+         (OStart [fr 0 [] (ASwitch 1 false false true); fr 8 [] ANormal] EndQuit [(KLoad, AQuit)],
+          [EClock 0 1 0; EProc 1 0%nat 0; EAct OProc (ASwitch 1 false false true) 1 0;
+           ELoad 1 2; EEv 1 (VOut 1 2); EEv 2 (VLoad 1 2);
+           EAct (OCallback KLoad true) AQuit 2 1; EEnd (Returned false) 2 1]);
+         (OStart [fr 16 [] ANormal; fr 17 [] (ASwitch 0 false false true);
+                  fr 18 [] (ASwitch 1 false false true); fr 19 [] ANormal] EndQuit [],
+          [EClock 16 2 1; EProc 2 0%nat 0;
+           EClock 17 2 1; EProc 2 0%nat 1; EAct OProc (ASwitch 0 false false true) 2 1;
+           EEv 2 (VOut 2 1); EEv 1 (VIn 2 1);
+           EClock 18 1 0; EProc 1 0%nat 1; EAct OProc (ASwitch 1 false false true) 1 0;
+           EEv 1 (VOut 1 2); EEv 2 (VIn 1 2); EEv 2 (VIn 1 2);
+           EClock 19 2 1; EProc 2 0%nat 1; EClockEnd EndQuit 2 1; EEnd (Returned false) 2 1]) ] |}.
 Example C13_nonvacuous :
   wf_b ex_ok = true /\ known13_b ex_ok = false /\ accepts ex_ok = true /\ holds13_b ex_ok = true.
 Proof. vm_compute. auto. Qed.
 
-(* known finding K5: switch(h, clear_next=True) - the real code (and the
-   model) queue on_switch_in on instance 2, which the loop discards; instance
-   3 runs and never hears it; the target is loaded twice *)
+(* a switch requested by the on_switch_out callback supersedes the script's
+   request (the first switch() never completes) and is honoured by the loop *)
+Definition ex_nested : C13_case :=
+  {| c_nps := [1%nat; 1%nat; 1%nat];
+     c_ops :=
+       [ top0;
+         (OStart [fr 0 [] (ASwitch 1 false false true); fr 8 [] ANormal] EndQuit
+                 [(KOut, ASwitch 2 false false true)],
+          [EClock 0 1 0; EProc 1 0%nat 0; EAct OProc (ASwitch 1 false false true) 1 0;
+           ELoad 1 2; EEv 1 (VOut 1 2);
+           EAct (OCallback KOut false) (ASwitch 2 false false true) 1 0;
+           ELoad 2 3; EEv 1 (VOut 1 3); EEv 3 (VLoad 2 3); EEv 3 (VIn 1 3);
+           EClock 8 3 2; EProc 3 0%nat 8; EClockEnd EndQuit 3 2; EEnd (Returned false) 3 2]) ] |}.
+Example C13_nested_nonvacuous :
+  wf_b ex_nested = true /\ known13_b ex_nested = false /\ accepts ex_nested = true /\
+  holds13_b ex_nested = true.
+Proof. vm_compute. auto. Qed.
+
+(* known finding K5: switch(h, clear_next=True) - on_switch_in is queued on
+   instance 2, which the loop discards; instance 3 runs and never hears it *)
 Definition k5_witness : C13_case :=
   {| c_nps := [1%nat; 1%nat];
      c_ops :=
        [ top0;
-         (OStart [fr 0 [] (ASwitch 1 false true true); fr 8 [] ANormal] EndQuit,
-          [EClock 0 1 0; EProc 1 0%nat 0; EAct OProc (ASwitch 1 false true true);
+         (OStart [fr 0 [] (ASwitch 1 false true true); fr 8 [] ANormal] EndQuit [],
+          [EClock 0 1 0; EProc 1 0%nat 0; EAct OProc (ASwitch 1 false true true) 1 0;
            ELoad 1 2; EEv 1 (VOut 1 2); ELoad 1 3; EEv 3 (VLoad 1 3);
            EClock 8 3 1; EProc 3 0%nat 8; EClockEnd EndQuit 3 1; EEnd (Returned false) 3 1]) ] |}.
 Theorem C13_clear_next_refuted :
@@ -98,24 +115,40 @@ Definition k5_witness_self : C13_case :=
   {| c_nps := [1%nat];
      c_ops :=
        [ top0;
-         (OStart [fr 0 [] (ASwitch 0 true false false); fr 8 [] ANormal] EndQuit,
-          [EClock 0 1 0; EProc 1 0%nat 0; EAct OProc (ASwitch 0 true false false);
+         (OStart [fr 0 [] (ASwitch 0 true false false); fr 8 [] ANormal] EndQuit [],
+          [EClock 0 1 0; EProc 1 0%nat 0; EAct OProc (ASwitch 0 true false false) 1 0;
            EEv 1 (VOut 1 1); ELoad 0 2; EEv 2 (VLoad 0 2);
            EClock 8 2 0; EProc 2 0%nat 8; EClockEnd EndQuit 2 0; EEnd (Returned false) 2 0]) ] |}.
 Theorem C13_clear_current_self_refuted :
   exists c, wf_b c = true /\ known13_b c = true /\ accepts c = true /\ holds13_b c = false.
 Proof. exists k5_witness_self. vm_compute. auto. Qed.
 
+(* known finding K10: the on_switch_in callback of the entered world asks for
+   another switch (raise SwitchWorld) while SimpleLoop.loop is in its except
+   clause: the exception is not caught, start() dies with SwitchWorld and the
+   target is never processed *)
+Definition k10_witness : C13_case :=
+  {| c_nps := [1%nat; 1%nat; 1%nat];
+     c_ops :=
+       [ top0;
+         (OStart [fr 0 [] (ASwitch 1 false false true); fr 8 [] ANormal] EndQuit
+                 [(KIn, ARaiseSW 2 false false)],
+          [EClock 0 1 0; EProc 1 0%nat 0; EAct OProc (ASwitch 1 false false true) 1 0;
+           ELoad 1 2; EEv 1 (VOut 1 2); EEv 2 (VLoad 1 2); EEv 2 (VIn 1 2);
+           EAct (OCallback KIn true) (ARaiseSW 2 false false) 2 1; EEnd RaisedSwitch 2 1]) ] |}.
+Theorem C13_switch_from_switch_in_refuted :
+  exists c, wf_b c = true /\ known13_b c = true /\ accepts c = true /\ holds13_b c = false.
+Proof. exists k10_witness. vm_compute. auto. Qed.
+
 (* logs of implementations that break the property are rejected by the
-   checker.  (a) the world left is not muted: an event poked at it is
-   delivered while another world runs *)
+   checker.  (a) the world left is not muted *)
 Definition sw1 := fr 0 [] (ASwitch 1 false false true).
-Definition sw1_log := [EClock 0 1 0; EProc 1 0%nat 0; EAct OProc (ASwitch 1 false false true);
+Definition sw1_log := [EClock 0 1 0; EProc 1 0%nat 0; EAct OProc (ASwitch 1 false false true) 1 0;
                        ELoad 1 2; EEv 1 (VOut 1 2); EEv 2 (VLoad 1 2); EEv 2 (VIn 1 2)].
 Example C13_left_world_not_muted_rejected :
   holds13_b {| c_nps := [1%nat; 1%nat];
                c_ops := [ top0;
-                 (OStart [sw1; fr 8 [(0, 1)] ANormal] EndQuit,
+                 (OStart [sw1; fr 8 [(0, 1)] ANormal] EndQuit [],
                   sw1_log ++ [EClock 8 2 1; EProc 2 0%nat 8; EPoke 0 1 1; EEv 1 (VPoke 1);
                               EClockEnd EndQuit 2 1; EEnd (Returned false) 2 1]) ] |} = false.
 Proof. vm_compute. reflexivity. Qed.
@@ -123,8 +156,8 @@ Proof. vm_compute. reflexivity. Qed.
 Example C13_switch_in_before_load_events_rejected :
   holds13_b {| c_nps := [1%nat; 1%nat];
                c_ops := [ top0;
-                 (OStart [sw1] EndQuit,
-                  [EClock 0 1 0; EProc 1 0%nat 0; EAct OProc (ASwitch 1 false false true);
+                 (OStart [sw1] EndQuit [],
+                  [EClock 0 1 0; EProc 1 0%nat 0; EAct OProc (ASwitch 1 false false true) 1 0;
                    ELoad 1 2; EEv 1 (VOut 1 2); EEv 2 (VIn 1 2); EEv 2 (VLoad 1 2);
                    EClockEnd EndQuit 2 1; EEnd (Returned false) 2 1]) ] |} = false.
 Proof. vm_compute. reflexivity. Qed.
@@ -132,8 +165,8 @@ Proof. vm_compute. reflexivity. Qed.
 Example C13_entered_world_silent_rejected :
   holds13_b {| c_nps := [1%nat; 1%nat];
                c_ops := [ top0;
-                 (OStart [sw1] EndQuit,
-                  [EClock 0 1 0; EProc 1 0%nat 0; EAct OProc (ASwitch 1 false false true);
+                 (OStart [sw1] EndQuit [],
+                  [EClock 0 1 0; EProc 1 0%nat 0; EAct OProc (ASwitch 1 false false true) 1 0;
                    ELoad 1 2; EEv 1 (VOut 1 2);
                    EClockEnd EndQuit 2 1; EEnd (Returned false) 2 1]) ] |} = false.
 Proof. vm_compute. reflexivity. Qed.
@@ -141,19 +174,34 @@ Proof. vm_compute. reflexivity. Qed.
 Example C13_frame_not_abandoned_rejected :
   holds13_b {| c_nps := [2%nat; 1%nat];
                c_ops := [ top0;
-                 (OStart [sw1] EndQuit,
-                  [EClock 0 1 0; EProc 1 0%nat 0; EAct OProc (ASwitch 1 false false true);
-                   ELoad 1 2; EEv 1 (VOut 1 2); EEv 2 (VLoad 1 2); EEv 2 (VIn 1 2);
-                   EProc 1 1%nat 0;
-                   EClockEnd EndQuit 2 1; EEnd (Returned false) 2 1]) ] |} = false.
+                 (OStart [sw1] EndQuit [],
+                  sw1_log ++ [EProc 1 1%nat 0;
+                              EClockEnd EndQuit 2 1; EEnd (Returned false) 2 1]) ] |} = false.
 Proof. vm_compute. reflexivity. Qed.
-(* (e) a handle cleared by clear_current is not reloaded: the old instance comes back *)
+(* (e) a handle cleared by clear_current is not reloaded *)
 Example C13_cleared_handle_not_fresh_rejected :
   holds13_b {| c_nps := [1%nat; 1%nat];
                c_ops := [ top0;
-                 (OStart [fr 0 [] (ARaiseSW 1 true false); fr 1 [] (ARaiseSW 0 false false)] EndQuit,
-                  [EClock 0 1 0; EProc 1 0%nat 0; EAct OProc (ARaiseSW 1 true false);
+                 (OStart [fr 0 [] (ARaiseSW 1 true false); fr 1 [] (ARaiseSW 0 false false)]
+                         EndQuit [],
+                  [EClock 0 1 0; EProc 1 0%nat 0; EAct OProc (ARaiseSW 1 true false) 1 0;
                    ELoad 1 2; EEv 2 (VLoad 1 2);
-                   EClock 1 2 1; EProc 2 0%nat 1; EAct OProc (ARaiseSW 0 false false);
+                   EClock 1 2 1; EProc 2 0%nat 1; EAct OProc (ARaiseSW 0 false false) 2 1;
                    EClockEnd EndQuit 1 0; EEnd (Returned false) 1 0]) ] |} = false.
+Proof. vm_compute. reflexivity. Qed.
+(* (f) the old dispatch_enabled setter (events delivered before a raising
+   callback are delivered again at the next enable): on_world_load of world 2
+   comes a second time when world 2 is entered again *)
+Example C13_redelivery_after_raising_callback_rejected :
+  holds13_b {| c_nps := [1%nat; 1%nat];
+               c_ops := [ top0;
+                 (OStart [sw1] EndQuit [(KIn, AQuit)],
+                  sw1_log ++ [EAct (OCallback KIn true) AQuit 2 1; EEnd (Returned false) 2 1]);
+                 (OStart [fr 16 [] (ASwitch 0 false false true);
+                          fr 17 [] (ASwitch 1 false false true)] EndQuit [],
+                  [EClock 16 2 1; EProc 2 0%nat 0; EAct OProc (ASwitch 0 false false true) 2 1;
+                   EEv 2 (VOut 2 1); EEv 1 (VIn 2 1);
+                   EClock 17 1 0; EProc 1 0%nat 1; EAct OProc (ASwitch 1 false false true) 1 0;
+                   EEv 1 (VOut 1 2); EEv 2 (VLoad 1 2); EEv 2 (VIn 1 2); EEv 2 (VIn 1 2);
+                   EClockEnd EndQuit 2 1; EEnd (Returned false) 2 1]) ] |} = false.
 Proof. vm_compute. reflexivity. Qed.
